@@ -290,6 +290,20 @@ pub fn class_names() -> Vec<String> {
     for n in ["7", "07", "007", "00", "10", "1e3", "1E3", "0x10", "0b1", "1_0", "inf", "NaN", "nan", "infinity", "true", "null", "None", "１"] {
         v.push(n.to_string());
     }
+    // a letter followed by a run of digits of every length up to beyond the machine word (a name parsed
+    // "naturally" overflows at 20 digits), all-digit names of those lengths, leading zeros
+    for k in [1usize, 2, 5, 9, 10, 18, 19, 20, 21, 25, 40] {
+        v.push(format!("t{}", "9".repeat(k)));
+        v.push(format!("t{}", "1234567890".repeat(4)[..k].to_string()));
+        v.push("9".repeat(k));
+        if k >= 19 {
+            v.push(format!("t0{}", "9".repeat(k)));
+            v.push(format!("a1b{}", "8".repeat(k)));
+        }
+    }
+    v.push("18446744073709551615".to_string());
+    v.push("18446744073709551616".to_string());
+    v.push("t18446744073709551616".to_string());
     for c in ['_', '-'] {
         v.push(format!("a{c}b"));
         if c == '_' {
@@ -313,6 +327,8 @@ pub fn name_class_terms() -> Vec<R> {
             out.push(R::pair(Tag::Inh, a.clone(), x.clone()));
             out.push(R::pair(Tag::Sim, x.clone(), x.clone()));
             out.push(R::node(Tag::SetExt, vec![x.clone()]));
+            out.push(R::node(Tag::SetInt, vec![x.clone(), a.clone()]));
+            out.push(R::node(Tag::Conj, vec![a.clone(), x.clone(), R::atom(Tag::IVar, "b1")]));
             out.push(R::node(Tag::Product, vec![a.clone(), x.clone(), a.clone()]));
             out.push(R::image(Tag::ImageInt, 1, vec![x.clone()]));
         }
@@ -361,6 +377,13 @@ pub fn hash_twins() -> Vec<R> {
         R::pair(Tag::Sim, da.clone(), b.clone()),
         R::node(Tag::Product, vec![a.clone(), b.clone()]),
         R::node(Tag::Product, vec![R::node(Tag::Product, vec![a.clone(), b.clone()])]),
+        // the same leaves bracketed differently (a hash that streams the leaves cannot tell them apart)
+        R::node(Tag::Product, vec![R::node(Tag::Product, vec![a.clone(), b.clone()]), R::word("c")]),
+        R::node(Tag::Product, vec![a.clone(), R::node(Tag::Product, vec![b.clone(), R::word("c")])]),
+        R::node(Tag::Product, vec![a.clone(), b.clone(), R::word("c")]),
+        R::pair(Tag::Inh, R::pair(Tag::Inh, a.clone(), b.clone()), R::word("c")),
+        R::pair(Tag::Inh, a.clone(), R::pair(Tag::Inh, b.clone(), R::word("c"))),
+        R::node(Tag::Neg, vec![R::node(Tag::Neg, vec![a.clone()])]),
     ]
 }
 
@@ -371,7 +394,8 @@ pub fn hash_twin_family(tags: &[Tag]) -> Vec<R> {
     for &t in tags {
         for i in 0..w.len() {
             for j in 0..w.len() {
-                if i != j {
+                // i == j too: the value a confusion of the twins (x, y) would be mistaken for is (x, x)
+                if i != j || t.shape() != Shape::Set {
                     out.push(mk2(t, &w[i], &w[j]));
                 }
             }
@@ -576,7 +600,7 @@ pub fn u_term(f: &F, tier: Tier) -> Vec<R> {
     out.extend(numeric_terms());
     out.extend(reducible(f));
     out.extend(name_class_terms());
-    out.extend(hash_twin_family(&[Tag::SetExt, Tag::Conj, Tag::IntInt, Tag::Sim]));
+    out.extend(hash_twin_family(&[Tag::SetExt, Tag::Conj, Tag::IntInt, Tag::Sim, Tag::Inh, Tag::Product]));
     out
 }
 
